@@ -178,7 +178,8 @@ func c17Run(s *Shard) {
 		{"function": "expFromZero", "params": M{"alpha": -0.5, "multiplier": 2.0, "queryNumber": 2}},
 	}
 	bounds := []M{{}, {"allowedValuesRangeScaling": 1.0}, {"allowedValuesRangeScaling": 0.5}, {"allowedValuesRangeScaling": 2.0},
-		{"disallowNegativeValues": true}, {"allowedValuesRangeScaling": 0.5, "disallowNegativeValues": true}, {"allowedValuesRangeScaling": 2.0, "disallowNegativeValues": true}}
+		{"disallowNegativeValues": true}, {"allowedValuesRangeScaling": 0.5, "disallowNegativeValues": true}, {"allowedValuesRangeScaling": 2.0, "disallowNegativeValues": true},
+		{"allowedValuesRangeScaling": -2.0}, {"allowedValuesRangeScaling": -0.5, "disallowNegativeValues": true}} // any negative factor means "no limits"
 	us := []float64{0, 0.25, 0.5, 0.75, 1 - 1.0/(1<<53)}
 	prefixes := [][]M{nil}
 	for _, b := range biasAlphabet(0) {
